@@ -133,16 +133,16 @@ class Ctx:
         self._graphs = {}
         self.units = {'graphs': 0, 'graph_nodes': 0, 'abstract_states': 0, 'entry_points': set()}
 
-    def graph(self, cls, entry, boolean=False, opaque=()):
+    def graph(self, cls, entry, boolean=False, opaque=(), call_exc=False):
         """supergraph of an entry point; methods named in `opaque` are not inlined"""
         if isinstance(cls, str):
             cls = self.P.cls(cls)
         opaque = tuple(sorted(opaque))
-        k = (cls.qual, entry, boolean, opaque)
+        k = (cls.qual, entry, boolean, opaque, call_exc)
         if k not in self._graphs:
             B = self.B
-            if opaque:
-                B = Builder(self.P, maxdepth=self.B.maxdepth, inline_filter=lambda fr, c, fn: fn.name not in opaque)
+            if opaque or call_exc:
+                B = Builder(self.P, maxdepth=self.B.maxdepth, inline_filter=lambda fr, c, fn: fn.name not in opaque, call_exc=call_exc)
             g = B.build_entry(cls, entry, boolean=boolean)
             self._graphs[k] = g
             self.units['graphs'] += 1
